@@ -120,8 +120,7 @@ def append (h : Heap) : Val → List Val → Heap × Option Nat × List Nat
     if isEmpty h id then appendLoop h none none [] args
     else appendLoop h (some id) (some (tailOf h (fuelOf h) id)) [] args
   | .typedNil, args => appendLoop h none none [] args
-  | .nilIface, [] => (h, none, [])
-  | .nilIface, a :: as => append h a as                 -- Append(errs[0], errs[1:]...)
+  | .nilIface, args => appendLoop h none none [] args   -- nil for no arguments, else Append((*Error)(nil), errs...)
   | v, args =>                                          -- Append(WrapTyped(e), errs...)
     if isNil v then appendLoop h none none [] args
     else appendLoop (h.push (wrapperNode v)) (some h.size) (some h.size) [] args
